@@ -2,11 +2,15 @@
     What is PROVED here is the worker pipeline of cmd/seqls/manager.go as a
     transition system (Model/Pipeline.v): loader, n workers, closer, printer
     over unbuffered channels, for EVERY schedule, every n >= 1 and every job
-    list.  Partial: the Go scheduler/channels and fastwalk's own worker pool are
+    list; and the directory walk that decides WHICH directories become jobs
+    (Model/Seqls.v walk_root, the model the check runs against the binary on
+    every generated tree): fuel-free specification, termination on every tree
+    whose real directories nest finitely (whatever the links), exact visit on
+    link-free trees, each link target followed at most once.  Partial: the Go scheduler/channels and fastwalk's own worker pool are
     not modelled; which directories become jobs, and what each job lists, is
     checked against the built binary on generated trees by the check itself. *)
 From Coq Require Import Permutation.
-From GFS Require Import Base Pipeline PipelineProofs.
+From GFS Require Import Base Path Listing Seqls Pipeline PipelineProofs WalkProofs.
 
 Section C17.
 Variable job : Type.
@@ -50,3 +54,48 @@ Example complete_run :
   exists s, steps PipelineExample.run1 (init 2 PipelineExample.jobs1) s /\ final s /\
             Permutation (printed s) (results PipelineExample.run1 PipelineExample.jobs1).
 Proof. exact PipelineExample.complete_run_exists. Qed.
+
+(** ---- the directory walk (Model/Seqls.v), the model the check compares with the binary ---- *)
+
+(** the fuel handed out by walk_root is always enough: its answer is the fuel-free specification,
+    on every tree whose real directories nest finitely - links may be cyclic, aliased, dangling *)
+Theorem walk_is_its_specification : forall t all root real c jobs c', acyclic t ->
+  walk_root t all root real c = (jobs, c') <-> WalkRoot t all root real c jobs c'.
+Proof. exact walk_root_spec. Qed.
+
+(** the recursive walk terminates on every such tree, from any cache *)
+Theorem walk_always_terminates : forall t all sp ents c, acyclic t ->
+  exists jobs c', Walk t all sp ents c jobs c'.
+Proof. exact walk_terminates. Qed.
+
+(** no directory named "." is all it takes for real directories to nest finitely *)
+Theorem trees_without_dot_entries_are_acyclic : forall t,
+  (forall n, In n t -> tn_kind n = KDir -> tn_name n <> [c_dot]) -> acyclic t.
+Proof. exact no_dot_acyclic. Qed.
+
+(** without links: the jobs are exactly the directories reachable from the root through
+    entries that are not skipped, each real directory once, spelled as the root re-rooted *)
+Theorem walk_visits_each_directory_exactly_once : forall t all root real c,
+  wf_tree t -> no_links t -> ~ (all = false /\ hidden_dir root = true) ->
+  let jobs := fst (walk_root t all root real c) in
+  NoDup (map snd jobs) /\
+  (forall s r, In (s, r) jobs <-> reach t all root real s r) /\
+  (forall r, In r (map snd jobs) <-> reachable t all root real r) /\
+  (forall s r, In (s, r) jobs -> s = spelled_of root real r) /\
+  snd (walk_root t all root real c) = c.
+Proof. exact walk_visits_exactly. Qed.
+
+(** with links: a target is recursed into at most once, over any number of roots sharing the cache *)
+Theorem each_link_target_followed_at_most_once : forall fuel t all sp ents c,
+  let r := walk_entries' fuel t all sp ents c in
+  NoDup (w_followed r) /\
+  (forall tgt, In tgt (w_followed r) -> mem tgt c = false /\ mem tgt (w_cache r) = true) /\
+  (forall x, mem x c = true -> mem x (w_cache r) = true) /\
+  (NoDup c -> NoDup (w_cache r)).
+Proof. exact walk_follows_once. Qed.
+
+Print Assumptions walk_is_its_specification.
+Print Assumptions walk_always_terminates.
+Print Assumptions trees_without_dot_entries_are_acyclic.
+Print Assumptions walk_visits_each_directory_exactly_once.
+Print Assumptions each_link_target_followed_at_most_once.
